@@ -63,10 +63,40 @@ pub struct View {
     pub commands: Vec<String>,
 }
 
+thread_local! {
+    /// What the history file of the next real terminal is: 0 none, 1 a working scratch file,
+    /// 2 /dev/full (every append fails with ENOSPC), 3 a descriptor opened read-only (EBADF).
+    static FILE_MODE: std::cell::Cell<u8> = const { std::cell::Cell::new(0) };
+}
+
+pub const FILE_MODES: [&str; 4] = ["no-file", "working-file", "dev-full", "read-only-descriptor"];
+
 /// Replay `keys` on a fresh real terminal; returns the view or how it stopped.
 pub fn real(hist: usize, keys: &[Key]) -> Result<View, Stopped> {
     let history: Vec<String> = HISTORIES[hist].iter().map(|s| s.to_string()).collect();
     let mut term = VerifTerminal::verif_new(history);
+    match FILE_MODE.with(|m| m.get()) {
+        1 => {
+            let dir = std::env::var("LACEMC_SCRATCH").unwrap_or_else(|_| "/verif/target/scratch".into());
+            let _ = std::fs::create_dir_all(&dir);
+            let path = format!("{dir}/history-{}-{:?}", std::process::id(), std::thread::current().id());
+            if let Ok(f) = std::fs::File::create(&path) {
+                term.verif_set_history_file(f);
+            }
+            let _ = std::fs::remove_file(&path);
+        }
+        2 => {
+            if let Ok(f) = std::fs::OpenOptions::new().write(true).open("/dev/full") {
+                term.verif_set_history_file(f);
+            }
+        }
+        3 => {
+            if let Ok(f) = std::fs::File::open("/dev/null") {
+                term.verif_set_history_file(f);
+            }
+        }
+        _ => {}
+    }
     term.verif_push_keys(keys.iter().map(|k| to_real(*k)));
     let mut commands = Vec::new();
     // every command costs at least one key (Enter or a ';' typed or recalled from the history):
@@ -370,9 +400,50 @@ pub fn run(ctx: &Ctx) -> i32 {
     for p in parts {
         acc.merge(p);
     }
+    // 5. the history file: the same editor with a file to append to - one that works, one on
+    //    which every append fails (ENOSPC), one that is not writable (EBADF). What is submitted
+    //    and recalled must not depend on it.
+    {
+        const KEYS5: [Key; 6] = [Key::Char('a'), Key::Char(';'), Key::Enter, Key::Up, Key::Down, Key::Backspace];
+        let len = ctx.tier.pick(5usize, 7);
+        let total: usize = (1..=len).map(|l| crate::util::pow(KEYS5.len(), l)).sum();
+        let parts = crate::isolate::pooled(None, total.div_ceil(512), 1, Acc::new, |acc, b| {
+            for idx in (b * 512)..((b + 1) * 512).min(total) {
+                // idx -> (length, index within the length)
+                let (mut l, mut off) = (1usize, idx);
+                while off >= crate::util::pow(KEYS5.len(), l) {
+                    off -= crate::util::pow(KEYS5.len(), l);
+                    l += 1;
+                }
+                let keys: Vec<Key> = crate::util::seq(off, KEYS5.len(), l).iter().map(|k| KEYS5[*k]).collect();
+                for mode in 1..=3u8 {
+                    for hist in [0usize, 1] {
+                        acc.eval("history-file");
+                        FILE_MODE.with(|m| m.set(mode));
+                        let (verdict, _) = judge(hist, &keys);
+                        FILE_MODE.with(|m| m.set(0));
+                        match verdict {
+                            Some((sig, what)) => {
+                                acc.outcome(format!("violation:{sig}"));
+                                acc.violation(format!("{sig}/history-file-{}", FILE_MODES[mode as usize]), format!("history file {}: {what}", FILE_MODES[mode as usize]), json!({"initial_history": HISTORIES[hist], "key_codes": key_codes(&keys), "hist": hist, "file_mode": mode}));
+                            }
+                            None => {
+                                acc.nontrivial();
+                                acc.gate("history-file-modes");
+                            }
+                        }
+                    }
+                }
+            }
+        });
+        for p in parts {
+            acc.merge(p);
+        }
+    }
     // 4. amounts: long lines and long histories
     let mut longs: Vec<(String, Vec<Key>)> = Vec::new();
-    for n in [255usize, 256, 257, 1000, 4096, 5000, 65535, 65536, 65537] {
+    let line_lengths: Vec<usize> = if ctx.tier == crate::report::Tier::Thorough { vec![255, 256, 257, 1000, 4096, 5000, 65535, 65536, 65537] } else { vec![255, 256, 257, 1000, 4096, 5000, 65536] };
+    for n in line_lengths {
         // a line of n characters (every third one multi-byte, a space every 7th), edited at both ends and in the middle
         let mut k: Vec<Key> = (0..n).map(|i| Key::Char(if i % 7 == 6 { ' ' } else if i % 3 == 0 { 'é' } else { 'a' })).collect();
         k.extend([Key::CtrlLeft, Key::Char('x'), Key::Backspace, Key::Delete]);
@@ -424,14 +495,14 @@ pub fn run(ctx: &Ctx) -> i32 {
         acc.merge(p);
     }
 
-    let rule = "BFS over key histories (15-key alphabet incl. 2-byte, 3-byte (the white-space character U+3000) and 4-byte characters, every editing key, Enter) from 3 initial histories (empty, two entries incl. multi-byte and ';', one with a blank entry as an externally written history file can contain); each transition replays the history on a fresh real Terminal through its read() and on the reference editor; distinct_nontrivial counts transitions whose real and reference views agreed (each is a distinct history). Plus a character sweep: every non-control character of the Basic Multilingual Plane and 4 blocks beyond it (thorough: planes 0-3 and the first 4096 of plane 14) in 24 key templates (the character next to a letter, punctuation, a space and itself; 0..7 word motions from either end then an insertion; Backspace/Delete around it; a line of it alone; recalled from history and edited). Plus amounts: lines of 255..5000 and of 65535..65537 characters edited at both ends and in the middle, and histories of 10..1000 submitted lines walked past both ends (each of the last 40 prefixes judged)";
+    let rule = "BFS over key histories (15-key alphabet incl. 2-byte, 3-byte (the white-space character U+3000) and 4-byte characters, every editing key, Enter) from 3 initial histories (empty, two entries incl. multi-byte and ';', one with a blank entry as an externally written history file can contain); each transition replays the history on a fresh real Terminal through its read() and on the reference editor; distinct_nontrivial counts transitions whose real and reference views agreed (each is a distinct history). Plus a character sweep: every non-control character of the Basic Multilingual Plane and 4 blocks beyond it (thorough: planes 0-3 and the first 4096 of plane 14) in 24 key templates (the character next to a letter, punctuation, a space and itself; 0..7 word motions from either end then an insertion; Backspace/Delete around it; a line of it alone; recalled from history and edited). Plus amounts: lines of 255..5000 and of 65536 (thorough: 65535..65537) characters edited at both ends and in the middle, and histories of 10..1000 submitted lines walked past both ends (each of the last 40 prefixes judged). Plus the history file: every key sequence up to length 5 (thorough 7) over {a, ;, Enter, Up, Down, Backspace} from two initial histories with the history given a working file, /dev/full (every append fails) and a read-only descriptor";
     finish(
         ctx,
         acc,
         Level { category: "model_checking", bfs: Some((stats.states, stats.transitions + raw_transitions, stats.transitions + raw_transitions, stats.max_depth)) },
         rule,
         !stats.capped && !stats_raw.capped,
-        &["multibyte-left-of-cursor", "line-submitted", "history-focused", "character-sweep", "long-lines-and-histories"],
+        &["multibyte-left-of-cursor", "line-submitted", "history-focused", "character-sweep", "long-lines-and-histories", "history-file-modes"],
         &["fresh Terminal per history equals a fresh process (no TTY, no history file)", "reference editor semantics follow the doc comments of terminal.rs (history focus, Vim w/b word motions)"],
         json!({"measured_variant_w_stops_at_trailing_space": variant(), "measured_variant_blank_history_submits": variant_blank(), "dedup_depth": dedup_depth, "raw_depth": raw_depth, "dedup": {"states": stats.states, "transitions": stats.transitions, "per_level": stats.per_level, "capped": stats.capped}, "raw": {"transitions": raw_transitions, "per_level": stats_raw.per_level}}),
     )
@@ -442,8 +513,11 @@ pub fn replay(_ctx: &Ctx, case: &Value) -> Option<Option<String>> {
     if let Some(codes) = case["key_codes"].as_array() {
         let codes: Vec<u64> = codes.iter().filter_map(|v| v.as_u64()).collect();
         let keys = keys_of_codes(&codes)?;
+        let mode = case["file_mode"].as_u64().unwrap_or(0) as u8;
+        FILE_MODE.with(|m| m.set(mode));
         let (a, _) = judge(hist, &keys);
         let (b, _) = judge(hist, &keys);
+        FILE_MODE.with(|m| m.set(0));
         if a != b {
             return Some(Some("NONDETERMINISTIC replay".into()));
         }
